@@ -15,5 +15,5 @@ Extraction "../ocaml/model.ml"
   counts root_count evals eval_root enums enum_root varss
   all_cfgs canon canon_cfg asg_of Models MC ModelsA MCA contains_all
   check_wf idx_ok decomposable smooth complete det_cert unique_leaves no_dead no_true_false
-  mq_file_lines mq_parse_lines mq_parse_file mq_render mq_render_single mq_sort mq_expected mq_init mq_valid_event mq_replay mq_next_event mq_complete mq_output mq_measure
+  mq_file_lines mq_parse_lines mq_parse_file mq_render mq_render_single mq_single mq_sort mq_expected mq_init mq_valid_event mq_replay mq_next_event mq_complete mq_output mq_measure
   lits_nonzero all_reachable.
